@@ -178,6 +178,71 @@ def swap_if_branches(src):
     return ast.unparse(tree) + '\n'
 
 
+def split_tuple_assignments(src):
+    """`a, b = x, y` -> `a = x` / `b = y` when no target name occurs in the
+    values (so the order of evaluation does not matter)."""
+    import ast
+    tree = ast.parse(src)
+
+    class T(ast.NodeTransformer):
+        def visit_Assign(self, n):
+            if len(n.targets) == 1 and isinstance(
+                    n.targets[0], ast.Tuple) and isinstance(
+                    n.value, ast.Tuple) and len(n.targets[0].elts) == len(
+                    n.value.elts) and not any(isinstance(
+                        e, ast.Starred) for e in n.targets[0].elts +
+                        n.value.elts):
+                tn = {x.id for t in n.targets[0].elts for x in ast.walk(t)
+                      if isinstance(x, ast.Name)}
+                vn = {x.id for v in n.value.elts for x in ast.walk(v)
+                      if isinstance(x, ast.Name)}
+                if not (tn & vn) and all(isinstance(t, ast.Name)
+                                         for t in n.targets[0].elts):
+                    return [ast.copy_location(ast.Assign(
+                        targets=[t], value=v), n)
+                        for t, v in zip(n.targets[0].elts, n.value.elts)]
+            return n
+
+    tree = ast.fix_missing_locations(T().visit(tree))
+    return ast.unparse(tree) + '\n'
+
+
+def comprehensions_to_loops(src):
+    """`name = [e for x in it if c]` (statement level, one generator) ->
+    `name = []` + an explicit loop that appends."""
+    import ast
+    tree = ast.parse(src)
+
+    class T(ast.NodeTransformer):
+        def visit_Assign(self, n):
+            v = n.value
+            if len(n.targets) == 1 and isinstance(
+                    n.targets[0], ast.Name) and isinstance(
+                    v, ast.ListComp) and len(v.generators) == 1 and not \
+                    v.generators[0].is_async:
+                name = n.targets[0].id
+                g = v.generators[0]
+                used = {x.id for x in ast.walk(v) if isinstance(x, ast.Name)}
+                if name in used:
+                    return n
+                app = ast.Expr(ast.Call(
+                    func=ast.Attribute(value=ast.Name(id=name, ctx=ast.Load()),
+                                       attr='append', ctx=ast.Load()),
+                    args=[v.elt], keywords=[]))
+                body = [app]
+                for c in reversed(g.ifs):
+                    body = [ast.If(test=c, body=body, orelse=[])]
+                loop = ast.For(target=g.target, iter=g.iter, body=body,
+                               orelse=[])
+                init = ast.Assign(targets=[ast.Name(id=name, ctx=ast.Store())],
+                                  value=ast.List(elts=[], ctx=ast.Load()))
+                return [ast.copy_location(init, n), ast.copy_location(loop, n)]
+            return n
+
+    tree = ast.fix_missing_locations(T().visit(tree))
+    return ast.unparse(tree) + '\n'
+
+
 def _transform(dst, how):
     """Whole-tree behaviour-preserving rewrites."""
     import ast
@@ -201,6 +266,10 @@ def _transform(dst, how):
                 new = keyword_calls(src, defs)
             elif how == 'swapif':
                 new = swap_if_branches(src)
+            elif how == 'splitassign':
+                new = split_tuple_assignments(src)
+            elif how == 'comp2loop':
+                new = comprehensions_to_loops(src)
             elif how == 'shift':
                 # push every line down (line numbers change, nothing else)
                 new = '# moved\n' * 7 + src if not src.startswith('#!') else \
@@ -330,7 +399,8 @@ def run_variant(v, repo):
 def run_for_property(prop, repo, seed=0, jobs=None):
     variants = [v for v in load_variants() if v['property'] == prop]
     # two whole-tree behaviour-preserving rewrites for every property
-    for how in ('unparse', 'shift', 'rename', 'alias', 'kwcalls', 'swapif'):
+    for how in ('unparse', 'shift', 'rename', 'alias', 'kwcalls', 'swapif',
+                'splitassign', 'comp2loop'):
         variants.append({'id': '%s-benign-%s-all' % (prop.lower(), how),
                          'property': prop, 'kind': 'benign', 'edits': [],
                          'transform': how, 'expect': None, 'clears': None,
